@@ -161,7 +161,7 @@ Proof.
       * exact (IH _ _ _ _ _ H).
     + destruct (c =? 34); [exact (IH _ _ _ _ _ H)|].
       destruct ((c =? 44) || (c =? 44)) eqn:Ed.
-      * injection H as <- <-. right. exists r. f_equal. lia.
+      * injection H as <- <-. right. exists r. f_equal. clear IH. lia.
       * exact (IH _ _ _ _ _ H).
 Qed.
 
@@ -254,6 +254,39 @@ Proof.
   - cbn [forallb] in Hws. apply andb_prop in Hws. apply xspace_nondigit. tauto.
 Qed.
 
+Definition sign_split (l1 : bytes) (n1 : N) : bool * bytes * N :=
+  match l1 with
+  | 45%N :: r => (true, r, N.succ n1)
+  | 43%N :: r => (false, r, N.succ n1)
+  | _ => (false, l1, n1)
+  end.
+Definition strtoll10_tail (neg : bool) (l2 : bytes) (n2 : N) : Z * N * bool :=
+  let ds := digit_run 10 l2 in
+  match ds with
+  | [] => (0%Z, 0%N, false)
+  | _ =>
+    let v := digits_value 10 ds 0 in
+    if neg then (if (v >? two63)%Z then ((- two63)%Z, (n2 + lenN ds)%N, true) else ((- v)%Z, (n2 + lenN ds)%N, false))
+    else (if (v >? two63 - 1)%Z then ((two63 - 1)%Z, (n2 + lenN ds)%N, true) else (v, (n2 + lenN ds)%N, false))
+  end.
+Lemma strtoll10_unfold s :
+  strtoll10 s = let '(l1, n1) := skip_space (c_string s) 0%N in
+                let '(neg, l2, n2) := sign_split l1 n1 in strtoll10_tail neg l2 n2.
+Proof. reflexivity. Qed.
+
+Lemma sign_split_app l more n : l <> [] ->
+  sign_split (l ++ more) n = let '(neg, l2, n2) := sign_split l n in (neg, l2 ++ more, n2).
+Proof.
+  intros Hl. destruct l as [|h t]; [contradiction|]. cbn [app]. unfold sign_split.
+  destruct h as [|p]; [reflexivity|].
+  destruct p as [p|p|]; try reflexivity;
+  repeat (destruct p as [p|p|]; try reflexivity).
+Qed.
+
+Lemma strtoll10_tail_app neg l2 more n2 : nondigit_head more ->
+  strtoll10_tail neg (l2 ++ more) n2 = strtoll10_tail neg l2 n2.
+Proof. intros H. unfold strtoll10_tail. now rewrite (digit_run_app l2 more H). Qed.
+
 Lemma strtoll10_local arg more :
   no_nul (arg ++ more) -> (arg = [] \/ ends_nonspace arg) -> after_item more ->
   strtoll10 (arg ++ more) = strtoll10 arg.
@@ -261,7 +294,7 @@ Proof.
   intros Hn Harg Hmore.
   pose proof (after_item_nondigit more Hmore) as Hnd.
   assert (Hna : no_nul arg) by (apply no_nul_app in Hn; tauto).
-  unfold strtoll10. rewrite (c_string_no_nul _ Hn), (c_string_no_nul _ Hna).
+  rewrite !strtoll10_unfold. rewrite (c_string_no_nul _ Hn), (c_string_no_nul _ Hna).
   destruct Harg as [->|(b & c & -> & Hc)].
   - cbn [app skip_space]. destruct Hmore as (ws & rest & -> & Hws & Hrest).
     pose proof (skip_space_all ws rest 0 Hws Hrest) as Hs.
@@ -270,32 +303,9 @@ Proof.
   - destruct (skip_space_app (b ++ [c]) more 0) as [Hs Hne].
     { exists c. split; [apply in_or_app; right; now left| exact Hc]. }
     rewrite Hs. destruct (skip_space (b ++ [c]) 0) as [l1 n1]. cbn [fst snd] in *.
-    destruct l1 as [|h t]; [contradiction|]. cbn [app].
-    assert (G : forall t0 k, (let ds := digit_run 10 (t0 ++ more) in
-                match ds with [] => (0%Z, 0, false) | _ => k ds end) =
-               (let ds := digit_run 10 t0 in match ds with [] => (0%Z, 0, false) | _ => k ds end)).
-    { intros t0 k. cbn zeta. now rewrite (digit_run_app t0 more Hnd). }
-    destruct h as [|p]; [cbn zeta; now rewrite (digit_run_app (0 :: t) more Hnd)|].
-    destruct (Pos.eq_dec p 45) as [->|N45].
-    { cbn zeta. now rewrite (digit_run_app t more Hnd). }
-    destruct (Pos.eq_dec p 43) as [->|N43].
-    { cbn zeta. now rewrite (digit_run_app t more Hnd). }
-    assert (E : forall (X : Type) (a b c0 : X),
-               match Npos p with 45 => a | 43 => b | _ => c0 end = c0).
-    { intros X a0 b0 c0. destruct p as [p|p|]; try reflexivity;
-      repeat (destruct p as [p|p|]; try reflexivity); congruence. }
-    change ((N.pos p :: t) ++ more) with (N.pos p :: (t ++ more)).
-    cbn zeta.
-    replace (match N.pos p :: t ++ more with
-             | 45 :: r => (true, r, N.succ n1) | 43 :: r => (false, r, N.succ n1)
-             | _ => (false, N.pos p :: t ++ more, n1) end) with (false, N.pos p :: t ++ more, n1)
-      by (destruct p as [p|p|]; try reflexivity; repeat (destruct p as [p|p|]; try reflexivity); congruence).
-    replace (match N.pos p :: t with
-             | 45 :: r => (true, r, N.succ n1) | 43 :: r => (false, r, N.succ n1)
-             | _ => (false, N.pos p :: t, n1) end) with (false, N.pos p :: t, n1)
-      by (destruct p as [p|p|]; try reflexivity; repeat (destruct p as [p|p|]; try reflexivity); congruence).
-    change (N.pos p :: t ++ more) with ((N.pos p :: t) ++ more).
-    now rewrite (digit_run_app (N.pos p :: t) more Hnd).
+    rewrite (sign_split_app l1 more n1 Hne).
+    destruct (sign_split l1 n1) as [[neg l2] n2].
+    apply strtoll10_tail_app, Hnd.
 Qed.
 
 Lemma parse_int_local arg more :
@@ -310,4 +320,158 @@ Proof.
   cbn [app]. destruct (strtoll10 []) as [[v n] e] eqn:Es. cbn in Es. injection Es as <- <- <-.
   cbn. destruct more as [|m0 mr]; [reflexivity|].
   pose proof (after_item_nondigit _ Hmore) as Hnd. cbn in Hnd. now rewrite Hnd.
+Qed.
+
+(* ---- B2: httpHeaderParseQuotedString(p, len) gives the same answer whatever follows the item ---- *)
+Lemma qd_run_app x after :
+  qd_run (lenN x) (x ++ after) = (fst (qd_run (lenN x) x), snd (qd_run (lenN x) x) ++ after).
+Proof.
+  induction x as [|c r IH]; cbn [lenN app].
+  - destruct after as [|a af]; reflexivity.
+  - cbn [qd_run]. replace (0 <? N.succ (lenN r)) with true by lia. rewrite N.pred_succ. cbn [andb].
+    destruct (qd_char c); [|reflexivity].
+    rewrite IH. destruct (qd_run (lenN r) r) as [a b]. reflexivity.
+Qed.
+
+Lemma qd_run_split : forall l room, let '(run, e) := qd_run room l in l = run ++ e.
+Proof.
+  induction l as [|c r IH]; intros room; cbn [qd_run]; [reflexivity|].
+  destruct ((0 <? room) && qd_char c); [|reflexivity].
+  specialize (IH (N.pred room)). destruct (qd_run (N.pred room) r) as [a b]. cbn [app]. now f_equal.
+Qed.
+
+Lemma qd_run_progress c r room : 0 < room -> qd_char c = true ->
+  exists a b, qd_run room (c :: r) = (c :: a, b).
+Proof.
+  intros Hr Hc. cbn [qd_run]. replace (0 <? room) with true by lia. rewrite Hc. cbn [andb].
+  destruct (qd_run (N.pred room) r) as [a b]. now exists a, b.
+Qed.
+
+Lemma ends_suffix x e : (x ++ e = [] \/ ends_nonspace (x ++ e)) -> (e = [] \/ ends_nonspace e).
+Proof.
+  intros [H|(b & c & H & Hc)].
+  - apply app_eq_nil in H. tauto.
+  - destruct e as [|e0 er]; [now left|]. right.
+    destruct (@exists_last _ (e0 :: er)) as (b' & c' & He); [discriminate|].
+    rewrite He in H. rewrite app_assoc in H. apply app_inj_tail in H. destruct H as [_ ->].
+    now exists b', c.
+Qed.
+
+Lemma ends_not_single_space c : is_xspace c = true -> ~ ends_nonspace [c].
+Proof.
+  intros Hc (b & d & H & Hd). destruct b as [|b0 b']; cbn in H.
+  - injection H as ->. congruence.
+  - injection H as _ H. destruct b'; discriminate.
+Qed.
+
+Lemma bad_ctl_not_qd c : qd_char c = false -> (c =? 34) = false -> (c =? 92) = false ->
+  (c =? 13) = false -> (c =? 10) = false -> bad_ctl c = true.
+Proof. unfold qd_char, bad_ctl. lia. Qed.
+
+Lemma pqs_iter_end after len val : (hdz after =? 34) = false ->
+  pqs_iter after len len val = QDone QFail.
+Proof. intros H. unfold pqs_iter. rewrite H, N.ltb_irrefl. reflexivity. Qed.
+
+Lemma pqs_iter_local s after k len val :
+  k + lenN s = len -> (hdz after =? 34) = false -> (s = [] \/ ends_nonspace s) ->
+  match pqs_iter s k len val with
+  | QDone r => pqs_iter (s ++ after) k len val = QDone r \/
+               (r = QFail /\ exists v, pqs_iter (s ++ after) k len val = QNext after len v)
+  | QNext s' k' v => pqs_iter (s ++ after) k len val = QNext (s' ++ after) k' v /\ k' + lenN s' = len /\
+                     (s' = [] \/ ends_nonspace s') /\ (length s' < length s)%nat
+  end.
+Proof.
+  intros Hk Ha Hends.
+  destruct s as [|c s'].
+  { cbn [lenN app] in *. assert (k = len) by lia. subst k.
+    rewrite (pqs_iter_end after len val Ha), (pqs_iter_end [] len val eq_refl). now left. }
+  cbn [lenN] in Hk. unfold pqs_iter. cbn [app hdz tlz].
+  replace (k <? len) with true by lia.
+  destruct (c =? 34) eqn:E34; cbn [negb andb]; [now left|].
+  destruct (c =? 13) eqn:E13.
+  - (* CR *)
+    assert (Hc : c = 13) by lia. subst c.
+    destruct s' as [|d s''].
+    { exfalso. destruct Hends as [H|H]; [discriminate|]. revert H. now apply ends_not_single_space. }
+    cbn [lenN app hdz tlz] in *.
+    replace (len <? k + 1) with false by lia. cbn [orb].
+    destruct (d =? 10) eqn:Ed; cbn [negb]; [|now left].
+    assert (d = 10) by lia. subst d.
+    destruct s'' as [|e s3].
+    { exfalso. destruct Hends as [H|H]; [discriminate|].
+      destruct (ends_suffix [13] [10] (or_intror H)) as [H'|H']; [discriminate|].
+      revert H'. now apply ends_not_single_space. }
+    cbn [lenN app hdz tlz] in *.
+    replace (len <? k + 1 + 1) with false by lia. cbn [orb].
+    destruct (negb (e =? 32) && negb (e =? 9)) eqn:Ee; [now left|].
+    split; [reflexivity|]. split; [lia|]. split; [|cbn [length]; lia].
+    apply (ends_suffix [13; 10; e] s3). exact Hends.
+  - destruct (c =? 10) eqn:E10.
+    + (* LF *)
+      assert (Hc : c = 10) by lia. subst c.
+      destruct s' as [|e s3].
+      { exfalso. destruct Hends as [H|H]; [discriminate|]. revert H. now apply ends_not_single_space. }
+      cbn [lenN app hdz tlz] in *.
+      replace (len <? k + 1) with false by lia. cbn [orb].
+      destruct (negb (e =? 32) && negb (e =? 9)) eqn:Ee; [now left|].
+      split; [reflexivity|]. split; [lia|]. split; [|cbn [length]; lia].
+      apply (ends_suffix [10; e] s3). exact Hends.
+    + destruct (c =? 92) eqn:E92.
+      * (* quoted-pair *)
+        cbn [andb].
+        destruct s' as [|d s''].
+        { cbn [lenN app hdz tlz] in *. cbn [N.eqb orb].
+          destruct (hdz after =? 0) eqn:Ez; cbn [orb]; [now left|].
+          replace (len <? k + 1) with false by lia.
+          replace (len - (k + 1)) with 0 by lia.
+          assert (Hq : qd_run 0 after = ([], after)) by (destruct after; reflexivity).
+          rewrite Hq. cbn [lenN]. destruct (bad_ctl (hdz after)); [now left|].
+          right. split; [reflexivity|]. exists (val ++ []). f_equal. lia. }
+        cbn [lenN app hdz tlz] in *.
+        replace (len <? k + 1) with false by lia. rewrite orb_false_r.
+        destruct (d =? 0) eqn:Ed0; [now left|].
+        replace (len - (k + 1)) with (lenN (d :: s'')) by (cbn [lenN]; lia).
+        change (d :: s'' ++ after) with ((d :: s'') ++ after).
+        rewrite (qd_run_app (d :: s'') after).
+        pose proof (qd_run_split (d :: s'') (lenN (d :: s''))) as Hsp.
+        destruct (qd_run (lenN (d :: s'')) (d :: s'')) as [run e] eqn:Er. cbn [fst snd].
+        destruct e as [|e0 er].
+        { cbn [app hdz]. cbn [bad_ctl N.leb N.eqb N.compare negb andb orb].
+          replace (bad_ctl 0) with true by reflexivity.
+          destruct (bad_ctl (hdz after)); [now left|].
+          right. split; [reflexivity|]. exists (val ++ run). f_equal.
+          rewrite app_nil_r in Hsp. rewrite <- Hsp. cbn [lenN]. lia. }
+        cbn [app hdz]. destruct (bad_ctl e0); [now left|].
+        split; [reflexivity|].
+        apply (f_equal lenN) in Hsp. rewrite lenN_app in Hsp. cbn [lenN] in Hsp.
+        split; [cbn [lenN]; lia|]. split.
+        { apply (ends_suffix (c :: run) (e0 :: er)). cbn [app]. rewrite <- Hsp0 || idtac.
+          pose proof (qd_run_split (d :: s'') (lenN (d :: s''))) as Hsp2. rewrite Er in Hsp2.
+          cbn [app]. rewrite <- Hsp2. exact Hends. }
+        { pose proof (qd_run_split (d :: s'') (lenN (d :: s''))) as Hsp2. rewrite Er in Hsp2.
+          apply (f_equal (@length N)) in Hsp2. rewrite app_length in Hsp2. cbn [length] in *. lia. }
+      * (* ordinary octet *)
+        cbn [andb].
+        replace (len - k) with (lenN (c :: s')) by (cbn [lenN]; lia).
+        change (c :: s' ++ after) with ((c :: s') ++ after).
+        rewrite (qd_run_app (c :: s') after).
+        pose proof (qd_run_split (c :: s') (lenN (c :: s'))) as Hsp.
+        destruct (qd_char c) eqn:Eq.
+        -- destruct (qd_run_progress c s' (lenN (c :: s')) ltac:(cbn [lenN]; lia) Eq) as (a & b & Hr).
+           rewrite Hr in *. cbn [fst snd].
+           destruct b as [|e0 er].
+           { cbn [app hdz]. replace (bad_ctl 0) with true by reflexivity.
+             destruct (bad_ctl (hdz after)); [now left|].
+             right. split; [reflexivity|]. exists (val ++ c :: a). f_equal.
+             rewrite app_nil_r in Hsp. rewrite <- Hsp. cbn [lenN]. lia. }
+           cbn [app hdz]. destruct (bad_ctl e0); [now left|].
+           split; [reflexivity|].
+           pose proof Hsp as Hlen. apply (f_equal lenN) in Hlen. rewrite lenN_app in Hlen. cbn [lenN] in Hlen.
+           split; [cbn [lenN]; lia|]. split.
+           { apply (ends_suffix (c :: a) (e0 :: er)). rewrite <- Hsp. exact Hends. }
+           { apply (f_equal (@length N)) in Hsp. rewrite app_length in Hsp. cbn [length] in *. lia. }
+        -- assert (Hr : qd_run (lenN (c :: s')) (c :: s') = ([], c :: s')).
+           { cbn [qd_run]. rewrite Eq. now rewrite andb_false_r. }
+           rewrite Hr. cbn [fst snd app hdz].
+           rewrite (bad_ctl_not_qd c Eq E34 E92 E13 E10). now left.
 Qed.
